@@ -356,6 +356,9 @@ func c07KeyOrders(c *Ctx, units []*c07Unit) {
 		if !c.Mine(1_000_000 + k) {
 			continue
 		}
+		if c.Expired() {
+			return // the cap is recorded: exhaustive=false
+		}
 		doc := h.ToJSON([]byte(rootJSON))
 		base, err := h.LoadSwagger(rootJSON)
 		if err != nil {
